@@ -1,15 +1,9 @@
-// drv_matmul: symmetric and triangular special matrices (see drv_matmul.h)
+// drv_matmul: symmetric special matrices (see drv_matmul.h)
 #include "drv_matmul.h"
 namespace mm {
-#define S_CASE(TAG, ENG) if (h[2] == TAG) { if (act) build_S1<ENG, true>(s, v); else build_S1<ENG, false>(s, v); return true; }
-bool build_group_symtri(const Spec& s, XVisitor& v) {
-  const Words& h = s.head;
-  if (h[0] != "S") return false;
-  if (h.size() < 4 || (h[1] != "a" && h[1] != "p")) throw BadOp();
-  bool act = h[1] == "a";
-  S_CASE("symL", SymmEngine<ROW_LOWER_COL_UPPER>) S_CASE("symU", SymmEngine<ROW_UPPER_COL_LOWER>)
-  S_CASE("lo", LowerEngine<ROW_MAJOR>) S_CASE("loc", LowerEngine<COL_MAJOR>)
-  S_CASE("up", UpperEngine<ROW_MAJOR>) S_CASE("upc", UpperEngine<COL_MAJOR>)
+bool build_group_s2(const Spec& s, XVisitor& v) {
+  S_GROUP_HEAD
+  S_PA("symL", SymmEngine<ROW_LOWER_COL_UPPER>, 3) S_PA("symU", SymmEngine<ROW_UPPER_COL_LOWER>, 1)
   return false;
 }
 }
